@@ -62,7 +62,6 @@ WellFormedSc(s) ==
   /\ s.n \in 1..8 /\ s.ctor \in Ctors /\ s.pat \in Pats /\ s.bpat \in Pats /\ s.op \in Ops
   /\ s.bkind \in {"I", "F", "B"} /\ s.ckind \in {"I", "F", "B"} /\ s.op2 \in Ops2
   /\ (HasOp2(s) => s.op \in BinOps \cup ScalarOps)
-  /\ (HasPf(s) => CtorStorage(s.ctor, s.n, s.ml, s.mu).kind # "I")
 
 Step ==
   /\ l <= NLines
@@ -78,16 +77,22 @@ Step ==
                  /\ CheckDrift(r, m.panic, m.mat, ok)
                  /\ sc' = s /\ A' = m.mat /\ oA' = Obs(r, s.n, m.mat)
                  /\ pc' = (IF HasPf(s) THEN "prefillA" ELSE "fillA") /\ UNCHANGED <<B, C, R, oB, oC, oR, stR>>
-        \* Matrix::fill(pf) on the whole buffer: not specified by C17 (no clause); Level-B comparison only.  What the
-        \* code shows afterwards is the "before" of the write clause of the next step.
+        \* Matrix::fill(pf) on the whole buffer: clause C17_Fill (the writable entries read pf, nothing else changes).
+        \* What the code shows afterwards is the "before" of the write clause of the next step.
         \/ /\ pc = "prefillA"
            /\ LET m == StepPrefillA(sc, A)
-              IN /\ CheckDrift(r, m.panic, m.mat, TRUE)
+                  ok == ClausePrefillA(sc, oA, r.panic, r.entries)
+              IN /\ (IF ok THEN TRUE ELSE Viol("fill", r, [step |-> "prefillA", kind |-> StA(sc).kind, ctor |-> sc.ctor, ml |-> sc.ml, mu |-> sc.mu,
+                                                     v |-> sc.pf, panic |-> r.panic, before |-> oA, got |-> r.entries]))
+                 /\ CheckDrift(r, m.panic, m.mat, ok)
                  /\ A' = m.mat /\ oA' = Obs(r, sc.n, m.mat)
                  /\ pc' = "fillA" /\ UNCHANGED <<sc, B, C, R, oB, oC, oR, stR>>
         \/ /\ pc = "prefillB"
            /\ LET m == StepPrefillB(sc, B)
-              IN /\ CheckDrift(r, m.panic, m.mat, TRUE)
+                  ok == ClausePrefillB(sc, oB, r.panic, r.entries)
+              IN /\ (IF ok THEN TRUE ELSE Viol("fill", r, [step |-> "prefillB", kind |-> sc.bkind, ctor |-> BCtor(sc.bkind), ml |-> sc.bml, mu |-> sc.bmu,
+                                                     v |-> sc.pf, panic |-> r.panic, before |-> oB, got |-> r.entries]))
+                 /\ CheckDrift(r, m.panic, m.mat, ok)
                  /\ B' = m.mat /\ oB' = Obs(r, sc.n, m.mat)
                  /\ pc' = "fillB" /\ UNCHANGED <<sc, A, C, R, oA, oC, oR, stR>>
         \/ /\ pc = "fillA"
